@@ -21,6 +21,7 @@ BATCH = 20
 
 def model_check(pid, tier):
     res = []
+    if os.environ.get("VERIF_SKIP_MC"): return res        # development only (tools/seedrun.sh): the model does not depend on the code
     for module, cfg in MC[pid][tier]:
         if not os.path.exists(os.path.join(vlib.SPEC, cfg)): continue
         t0 = time.time()
@@ -42,6 +43,30 @@ def run_one(args):
     return dict(seed=seed, err=err, lines=lines, nbuilds=sum(1 for s in case["steps"] if s[0] in ("build", "buildnode")),
                 nran=sum(1 for e in evs if e.get("e") == "CmdStarted"), nsteps=len(case["steps"]))
 
+def scenario_amo():
+    """S19: a command with allow-modified-outputs whose INPUT changes (not generated at random: a listed finding)"""
+    from bslib import node, cmd, make_desc, finish_case
+    nodes = {n: node("file", n) for n in ["a", "o1"]}
+    d0 = make_desc(dict(c1=cmd(ins=["a"], outs=["o1"], tag="c1", amo=True)), dict(t=["o1"]))
+    fs0 = {"a": dict(t="file", c="0"), "o1": dict(t="none", c="")}
+    return finish_case(dict(nodes=nodes, fs0=fs0, steps=[("frontend", d0, True, True), ("build", "t"), ("write", "a", "1"), ("build", "t")]))
+
+SCENARIOS = {"C08": [("amo-input-change", scenario_amo, "C08 allow-modified-outputs: input change not rebuilt")]}
+
+def run_scenarios(pid, binary, wd):
+    out = []
+    for name, mk, fp in SCENARIOS.get(pid, []):
+        case = mk()
+        lines, evs, err = bslib.run_case(binary, case, wd, "scn_" + name)
+        if err: out.append(dict(replay=vlib.save_replay(pid, "scenario-" + name, dict(property=pid, kind="scenario", name=name, error=err)), what="scenario %s: %s" % (name, err), fingerprint="driver:" + name)); continue
+        acc, rej, st, evn = vlib.validate_executions([lines], wd, "scn_" + name, module="BuildSystemTrace.tla", cfg="BuildSystemTrace.cfg")
+        for rj in rej:
+            this = fp if rj.get("violated") == "TOutputsClean" else "%s:%s" % (name, rj["reason"])
+            path = vlib.save_replay(pid, "scenario-" + name, dict(property=pid, kind="scenario", name=name, rejected_at=rj["at"], reason=rj["reason"], event=json.loads(rj["event"]), trace=rj["lines"]))
+            out.append(dict(replay=path, what="scenario %s: %s at line %d" % (name, rj["reason"], rj["at"]), fingerprint=this))
+        log("[%s] scenario %s: %s" % (pid, name, "accepted" if not rej else "rejected (%s)" % rej[0]["reason"]))
+    return out
+
 def run(pid, tier, seed):
     b = vlib.build("hooks")
     binary = b + "/harness/bs_driver"
@@ -59,6 +84,7 @@ def run(pid, tier, seed):
         log("[C14] pathIsPrefixedByPath: %d (path, root) pairs enumerated by TLC from spec/fn/PathPrefix.tla, %d mismatches" % (len(cases), len(bad)))
         violations += checks_fnprops.pack(pid, seed, bad)
         fncov = dict(prefix_pairs=len(cases), prefix_must=sum(1 for c in cases if c["must"]), prefix_states=p["distinct"])
+    violations += run_scenarios(pid, binary, wd)
     n = NCASES[tier]
     seeds = [seed * 1000003 + i for i in range(n)]
     t0 = time.time()
@@ -107,6 +133,12 @@ def run(pid, tier, seed):
 
 def replay(pid, path):
     obj = json.load(open(path))
+    if obj.get("kind") == "scenario":
+        b = vlib.build("hooks"); wd = vlib.scratch("replay_bs")
+        v = run_scenarios(pid, b + "/harness/bs_driver", wd)
+        v = [x for x in v if obj["name"] in x["replay"]]
+        for x in v: print(x["what"]); print("VIOLATION property=%s replay=%s" % (pid, path))
+        return 1 if v else 0
     if obj.get("kind") == "trace" or obj.get("kind") == "driver":
         b = vlib.build("hooks"); wd = vlib.scratch("replay_bs")
         case = bsgen.gen_case(obj["focus"], obj["seed"])
